@@ -15,11 +15,14 @@ package main
 //	                             (observed twice; a second round that differs is an error "mutated|...")
 //	c02.build <loc> <parent>   : poly.Feature{SequenceLocation: loc} added with Sequence.AddFeature to a
 //	                             Sequence{Sequence: parent}; reply  GetSequence()  BuildLocationString(loc)
-//	c02.batch <width> <nvar> <parent> { <text> <loc>*nvar }*  : c02.parse for every text and c02.build for every
+//	c02.batch <width> <nvar> <rec> <parent> { <text> <loc>*nvar }*  : c02.parse for every text and c02.build for every
 //	                             structure; reply: "together" | "single" (see below), then per group 1+nvar fields, each "ok|v1|v2.." or "panic" (a panic in one
 //	                             call does not hide the others).  The texts are first parsed as the features of ONE
 //	                             record (one genbank.Parse per batch); if that panics or yields other features each text
 //	                             gets its own record AND the reply starts with "single", which the judge counts as a failure.
+//
+// With <rec> = 1 the reply continues with the record leg (c02RecordLeg): every parsed and assembled location written
+// by genbank.Build into one record and read back by genbank.Parse.
 //
 // In the record a location text longer than <width> (GenBank: 58) is wrapped after commas onto continuation
 // lines that start in column 22, as GenBank files do, so that the gluing of continuation lines in getFeatures
@@ -289,8 +292,9 @@ func init() {
 		if err1 != nil || err2 != nil || nvar < 0 {
 			return nil, errors.New("bad batch header")
 		}
-		parent := a[2]
-		rest := a[3:]
+		recLeg := a[2] == "1"
+		parent := a[3]
+		rest := a[4:]
 		group := 1 + nvar
 		n := len(rest) / group
 		texts := make([]string, n)
@@ -298,7 +302,7 @@ func init() {
 			texts[i] = rest[group*i]
 		}
 		feats, together := c02ParseAll(texts, parent, width)
-		out := make([]string, 0, group*n+1)
+		out := make([]string, 0, 2*group*n+1)
 		// first reply field: whether the one-record path worked; the judge FAILs on "single"
 		if together {
 			out = append(out, "together")
@@ -315,6 +319,67 @@ func init() {
 				out = append(out, c02BuildOne(rest[group*i+k], parent))
 			}
 		}
+		if recLeg {
+			out = append(out, c02RecordLeg(parent, feats, together, rest, n, nvar)...)
+		}
 		return out, nil
 	})
+}
+
+// c02RecordLeg: the locations as genbank.Build writes them in a record, read back by genbank.Parse.
+// One Sequence gets, per tree, the parsed feature with its GbkLocationString scrubbed (so that Build writes
+// BuildLocationString of the parsed structure) and one feature per assembled structure; genbank.Build writes
+// the record, genbank.Parse reads it; reply per feature "ok|GetSequence()|GbkLocationString as read back"
+// (n*(1+nvar) fields, tree by tree), or "panic" / "missing" / "skip".
+func c02RecordLeg(parent string, parsed []poly.Feature, together bool, rest []string, n, nvar int) (out []string) {
+	group := 1 + nvar
+	total := n * group
+	fill := func(v string) []string {
+		r := make([]string, total)
+		for i := range r {
+			r[i] = v
+		}
+		return r
+	}
+	if !together {
+		return fill("skip")
+	}
+	defer func() {
+		if p := recover(); p != nil {
+			out = fill("panic")
+		}
+	}()
+	sequence := genbank.Parse(c02Record(nil, parent, 58))
+	for i := 0; i < n; i++ {
+		f := parsed[i]
+		f.GbkLocationString = ""
+		f.ParentSequence = nil
+		sequence.AddFeature(&f)
+		for k := 1; k <= nvar; k++ {
+			l, m, err := c02ReadLoc(rest[group*i+k], 0)
+			if err != nil || m != len(rest[group*i+k]) {
+				return fill("skip")
+			}
+			g := poly.Feature{Type: "misc_feature", SequenceLocation: l, Attributes: map[string]string{"label": "x"}}
+			sequence.AddFeature(&g)
+		}
+	}
+	back := genbank.Parse(genbank.Build(sequence))
+	if len(back.Features) != total || back.Sequence != parent {
+		return fill("missing")
+	}
+	out = make([]string, total)
+	for i := range out {
+		out[i] = c02ReadBack(back.Features[i])
+	}
+	return out
+}
+
+func c02ReadBack(f poly.Feature) (out string) {
+	defer func() {
+		if p := recover(); p != nil {
+			out = "panic"
+		}
+	}()
+	return "ok|" + f.GetSequence() + "|" + f.GbkLocationString
 }
